@@ -155,6 +155,56 @@ def c03(tier='quick', seed=0):
                         R.case(key + ('then', nb), bad2)
                         if R.full:
                             return R.d
+    # the same table for rule sets that reach the enforcer through its own loader, in the three file layouts (main file,
+    # main file + policy.d, policy.d only): the constructor argument / option chooses the default rule in all of them
+    from bounded.loader import Sandbox, quiet
+    quiet()
+    for rules_text in ({'a': '@'}, {'a': '!', 'default': '@'}, {'default': '!', 'b': 'role:x'}, {'a': 'role:x', 'zzz': '@'}):
+        for layout in ('main', 'main+dir', 'dir-only'):
+            for dcfg in ('unset', 'name:default', 'name:zzz', 'check:@', 'check:!', 'opt:zzz', 'name:default+opt:zzz'):
+                sb = Sandbox()
+                try:
+                    sb.mkdir('d1')
+                    if layout == 'main':
+                        sb.write('policy.yaml', rules_text)
+                    elif layout == 'main+dir':
+                        sb.write('policy.yaml', {})
+                        sb.write('d1/r.yaml', rules_text)
+                    else:
+                        sb.write('d1/r.yaml', rules_text)
+                    kw, optv = {}, None
+                    default_name, dchk = 'default', None
+                    for part in dcfg.split('+'):
+                        if part.startswith('opt:'):
+                            optv = part[4:]
+                            if 'default_rule' not in kw:
+                                default_name = optv
+                        elif part.startswith('name:'):
+                            kw['default_rule'] = default_name = part[5:]
+                        elif part.startswith('check:'):
+                            dchk = part[6:]
+                            kw['default_rule'] = policy._parser.parse_rule(dchk)
+                    conf = sb.conf(policy_file='policy.yaml', policy_dirs=['d1'], **({'policy_default_rule': optv} if optv else {}))
+                    e = policy.Enforcer(conf, **kw)
+                    dflt = ('check', dchk) if dchk is not None else default_name
+                    for q in ('a', 'b', 'default', 'other'):
+                        for roles in ((), ('x',)):
+                            try:
+                                want = ref_decide(rules_text, dflt, q, roles)
+                            except RecursionError:
+                                continue
+                            # twice: the second call goes through the reload logic of a long-lived enforcer
+                            for rnd in (1, 2):
+                                got = outcome(e.enforce, q, {}, {'roles': list(roles)})
+                                bad = None
+                                if got[0] != 'ret' or bool(got[1]) != want:
+                                    bad = 'files (%s) %r default=%s: enforce(%r, roles=%r) call %d gave %r, expected %r' % (
+                                        layout, rules_text, dcfg, q, list(roles), rnd, got[1:], want)
+                                R.case(('loader', tuple(sorted(rules_text.items())), layout, dcfg, q, roles, rnd), bad)
+                            if R.full:
+                                return R.d
+                finally:
+                    sb.close()
     return R.d
 
 
@@ -304,6 +354,21 @@ def c07(tier='quick', seed=0):
                                 elif a[0] != 'exc' or a[1] != 'PolicyNotRegistered':
                                     bad = 'authorize of an unregistered name gave %r' % (a[:2],)
                                 R.case((debug, name, tuple(roles), ti, 'authorize'), bad)
+                                # every calling form: authorize of a registered name is enforce with the same arguments
+                                if name == 'allow':
+                                    for dr in (False, True):
+                                        for exc, args, kwargs in ((None, (), {}), (MyExc, (), {}), (MyExc, ('a1',), {}),
+                                                                  (MyExc, ('a1', 2), {'kw': 'v'}), (MyExc, (), {'kw': 'v'})):
+                                            ea = outcome(e.enforce, name, target, dict(creds), dr, exc, *args, **kwargs)
+                                            aa = outcome(e.authorize, name, target, dict(creds), dr, exc, *args, **kwargs)
+                                            same = ea[:2] == aa[:2] and (ea[0] == 'ret' or not exc or (
+                                                getattr(ea[2], 'a', None) == getattr(aa[2], 'a', None) and
+                                                getattr(ea[2], 'k', None) == getattr(aa[2], 'k', None)))
+                                            bad = None if same else (
+                                                'authorize(%r, ..., do_raise=%r, exc=%s, *%r, **%r) gave %r, enforce with the same '
+                                                'arguments %r' % (name, dr, exc and exc.__name__, args, kwargs, aa[:2], ea[:2]))
+                                            R.case((debug, name, tuple(roles), ti, 'authorize-forms', dr, exc is not None,
+                                                    len(args), len(kwargs)), bad)
                             if R.full:
                                 return R.d
     finally:
@@ -402,11 +467,12 @@ def c14(tier='quick', seed=0):
                'operators, brackets, digits, dots, quotes, placeholders) against credentials whose values take every '
                'JSON type at every path position; only documented exceptions may escape and unevaluable checks deny')
     kinds = ['a', 'a.b', 'a.b.c', 'class', '1+', '', 'a.0', '[', '{', 'None', 'True', '1', "'x'", '"x"', 'lambda', 'a..b',
-             '.', 'a.', '0x', '1e', 'not', '-', '(1', '1)', '[1]', 'roles', 'roles.x', 'a.b.c.d', 'import', '%', 'é', '{[]}', '{{}:1}', '{1:[]}', '()', '{}', 'b"x"', '...', '1j', '-1', '+1', '- 1', '1_0',
+             '.', 'a.', '0x', '1e', 'not', '-', '(1', '1)', '[1]', 'roles', 'roles.x', 'a.b.c.d', 'import', '%', 'é', '0x' + 'f' * 4300, '{[]}', '{{}:1}', '{1:[]}', '()', '{}', 'b"x"', '...', '1j', '-1', '+1', '- 1', '1_0',
              '0o7', '1,', '*a', 'a,b', "'a''b'", '"""x"""', 'r"x"', 'f"x"', '1if', 'set()', '{1}', '[{}]', '[[]]']
     matches = ['x', '1', 'True', '%(t)s', '%(missing)s', 'None', "['x']"]
+    from contracts.native import HUGE, safe
     jsons = [None, True, 0, 1.5, 'str', [], ['x'], [['x']], [{'b': 'x'}], {}, {'b': 'x'}, {'b': ['x', {'c': 'x'}]},
-             {'b': {'c': {'d': 'x'}}}, [None], [[], {}]]
+             {'b': {'c': {'d': 'x'}}}, [None], [[], {}], HUGE, -HUGE, [HUGE], {'b': HUGE}]
     n = 400 if tier == 'quick' else 4000
     documented = {'PolicyNotAuthorized', 'InvalidScope', 'InvalidContextObject', 'PolicyNotRegistered', 'MyExc'}
     for it in range(n):
@@ -422,13 +488,13 @@ def c14(tier='quick', seed=0):
         rules_text = {'p': body, 'other': rng.choice(['@', '!', 'a.b:x'])}
         e = mk_enforcer(rules=policy.Rules.from_dict(rules_text))
         creds = {'roles': rng.choice([[], ['x'], ['X', 'y']]), 'a': rng.choice(jsons)}
-        target = rng.choice([{}, {'t': 'x'}, {'t': 1}, {'t': None}, {'t': ['x']}])
+        target = rng.choice([{}, {'t': 'x'}, {'t': 1}, {'t': None}, {'t': ['x']}, {'t': HUGE}])
         for do_raise in (False, True):
             got = outcome(e.enforce, 'p', target, dict(creds), do_raise)
             bad = None
             if got[0] == 'exc' and got[1] not in documented:
-                bad = 'rule %r with creds %r target %r raised %s: %s' % (body, creds, target, got[1], got[2])
-            R.case((body, repr(creds), repr(target), do_raise), bad, sample={'rule': body, 'creds': repr(creds)})
+                bad = 'rule %r with creds %s target %s raised %s: %s' % (body, safe(creds), safe(target), got[1], got[2])
+            R.case((body, safe(creds), safe(target), do_raise), bad, sample={'rule': body, 'creds': safe(creds)})
         if R.full:
             break
     return R.d
